@@ -10,6 +10,7 @@ import Serif.Drive.C04
 import Serif.Drive.C01
 import Serif.Drive.C02
 import Serif.Drive.C16
+import Serif.Drive.C14
 open Lean Serif.Wire
 
 def dispatch (p fam : String) (c impl : Json) : P Json :=
@@ -18,6 +19,7 @@ def dispatch (p fam : String) (c impl : Json) : P Json :=
   | "C01" => Serif.Drive.C01.handle fam c impl
   | "C02" => Serif.Drive.C02.handle fam c impl
   | "C16" => Serif.Drive.C16.handle fam c impl
+  | "C14" => Serif.Drive.C14.handle fam c impl
   | _ => .error s!"unknown property {p}"
 
 def answer (line : String) : Json :=
